@@ -5,13 +5,15 @@ From Coq Require Import List ZArith Bool.
 Import ListNotations.
 From Zn.model Require Import Lexer Ast Parser.
 From Zn.proofs Require Import FrontCompleteProofs.
-From Zn.proofs Require ExprPrecProofs ExprPrecSpacesProofs ChainPrecProofs StmtNestProofs LayoutInvProofs SectionsTokProofs SectionsProofs.
+From Zn.proofs Require ExprPrecProofs ExprPrecSpacesProofs ChainPrecProofs StmtNestProofs LayoutInvProofs SectionsTokProofs SectionsProofs TypesTokProofs TypesProofs.
 Module EP := ExprPrecProofs.
 Module CP := ChainPrecProofs.
 Module SN := StmtNestProofs.
 Module LI := LayoutInvProofs.
 Module ST := SectionsTokProofs.
 Module SE := SectionsProofs.
+Module TT := TypesTokProofs.
+Module TY := TypesProofs.
 Module EPS := ExprPrecSpacesProofs.
 Open Scope Z_scope.
 
@@ -145,6 +147,18 @@ Theorem C03_exec_block_tokens : forall ins b cs d F st st' bb, forallb ST.ywf b 
                                  = Ok (XBlock ins (map ST.yast b) (map ST.ycatch cs)) (SN.setb st' b').
 Proof. exact ST.parse_exec_tokens. Qed.
 Print Assumptions C03_exec_block_tokens.
+
+(* ---- type definitions, constructors, method calls, 其 P ----
+   [TT.zprog] adds to the sections fragment: 定义 C： with property lines 其 P = e, methods 如何 M？ and getters 何为 G？ (each with its
+   exec block), constructors 如何 新建 C？, the method-call statement 以 X（M：a、b）、（N）[得到 R] over a chain of calls, and the member
+   forms 其 P = e / 输出 其 P inside bodies.  Canonical printing; the prescribed program keeps properties, methods and getters in
+   source order with their declaration kinds (method 1, getter 2, constructor 3).  Two shapes the parser rejects (an empty 定义, a
+   constructor inside the type block) and one it reads differently from the naive reading (其 P = a 等于 b is {其 P = a} 等于 b) are
+   recorded with the Go parser's identical answers in proofs/TypesProofs.v. *)
+Theorem C03_types_every_program : forall q, TY.zprog_ok q = true ->
+  compile (default_fuel (TY.zprint q)) (TY.zprint q) = OTree (TT.zprescribed q) (TY.zline_table q) (TY.zindent_type q).
+Proof. exact TY.compile_types_default. Qed.
+Print Assumptions C03_types_every_program.
 
 (* ---- text that only rearranges layout never changes the tree ----
    A layout [LI.layout] chooses the indentation unit (four spaces or one TAB per level, one unit throughout the text — mixing them is
